@@ -89,6 +89,7 @@ def _verdict(chk, rule, inst, res, detail, loc, fn):
         chk.unknown(rule, inst, "cannot prove or refute: " + detail, loc)
 
 
+STEP_DIRS = {}             # cfg -> {+1 | -1: [who steps its index that way]}: both sides must walk the ring the same way round
 FREE_SLOT_USERS = {}       # cfg -> {"consumer": (fn, loc), "producer": (fn, loc)}: who relies on the slot the ring keeps vacant
 
 
@@ -184,8 +185,10 @@ def check_role_fn(chk, m, fn, role, cfg):
             r1, r2 = model.decide_in_range(N)
             _verdict(chk, "R3.index-range", pathid + " stored>=0", r1, "stored %s = %s >= 0" % (own, N), S.inst.loc, fn.name)
             _verdict(chk, "R3.index-range", pathid + " stored<=L-1", r2, "stored %s = %s <= L-1" % (own, N), S.inst.loc, fn.name)
-            _verdict(chk, "R4.successor", pathid, model.decide_is_successor(N),
-                     "stored %s = %s is the wrapped successor of the loaded index" % (own, N), S.inst.loc, fn.name)
+            res_step, direction = model.decide_is_step(N)
+            STEP_DIRS.setdefault(cfg, {}).setdefault(direction if res_step == "proved" else 1, []).append("%s (%s)" % (fn.name, own))
+            _verdict(chk, "R4.successor", pathid, res_step,
+                     "stored %s = %s is the loaded index stepped by %+d modulo buf_len" % (own, N, direction), S.inst.loc, fn.name)
             for k in mine:
                 root, off, var = ptr_parts(ev[k].ptr)
                 if len(var) != 1 or var[0][1] != 1:
@@ -251,7 +254,9 @@ def check_role_fn(chk, m, fn, role, cfg):
                         if len(y.co) == 1 and y.c == 0 and str(list(y.co)[0]).startswith("peer#") and is_eq_taken:
                             if role == "producer":
                                 # need X is successor; evaluate under hypotheses *without* the equality itself
-                                res = model.decide_is_successor(x)
+                                res, direction = model.decide_is_step(x)
+                                if res == "proved":
+                                    STEP_DIRS.setdefault(cfg, {}).setdefault(direction, []).append("%s (full test)" % fn.name)
                                 a, b = model.decide_in_range(x)
                                 found = True
                                 _verdict(chk, "R4.full-test", pathid, res,
@@ -378,6 +383,11 @@ def run_config(chk, cfg):
                    "include/librfn/ringbuf.h", "ringbuf_t")
     else:
         chk.unknown("R3.index-width", "ringbuf_t[%s]" % cfg, "anchor vanished: ringbuf_t has no debug info")
+    dirs = STEP_DIRS.pop(cfg, {})
+    chk.ob("R4.same-direction", "ringbuf[%s]" % cfg, len(dirs) <= 1,
+           "every index step and the full test walk the ring the same way round (%s)" % ", ".join("%+d" % d for d in dirs) if len(dirs) <= 1 else
+           "the ring is walked both ways: +1 by %s, -1 by %s - the k-th byte put and the k-th byte got are then different slots"
+           % (", ".join(dirs.get(1, [])), ", ".join(dirs.get(-1, []))), "", "")
     users = FREE_SLOT_USERS.pop(cfg, {})
     both = "consumer" in users and "producer" in users
     chk.ob("R1.free-slot-one-user", "ringbuf[%s]" % cfg, not both,
